@@ -13,7 +13,8 @@ META = {
             're-resolution yields the pinned version); every Relax step builds the new requirement from a version strictly above the highest matching one with an allowed '
             'difference; suggestMavenVersion (after fixes 3e9bb9ee, 63128997) proposes only known versions STRICTLY above current with an allowed difference, for every input '
             '(full strength; a range no known version satisfies keeps the requirement); level None touches nothing in all three. '
-            'Both assumed laws are checked on every generated universe.',
+            'With several packages every round judges each package against the version resolved at the start of that round (C11_override_multi_step); a pin chosen that way can be '
+            'overtaken by another override (known finding C11/override-pin-overtaken, witness proved). Both assumed laws are checked on every generated universe.',
     'note': 'Trusted: Lean kernel (axioms propext/Quot.sound/Classical.choice at most); deps.dev semver (Compare, Difference, constraint matching) and the Maven/npm resolvers are '
             'parameters, supplied per case as tables computed with the same libraries; mavenutil.CompareVersions (guava flavours, commons date versions) is taken as the '
             'order the library defines; slices.SortFunc/BinarySearchFunc contracts; harness/cmd/c11gen + lean/Drivers/C11.lean. The relax loop across several requirements '
@@ -24,7 +25,7 @@ O = 'Scalibr.Override.'
 R = 'Scalibr.Relax.'
 S = 'Scalibr.Suggest.'
 THEOREMS = [U + 'C11_allows_table', U + 'C11_allows_meaning', O + 'C11_override_step', O + 'C11_cumulative', O + 'C11_terminates', O + 'C11_terminates_bound',
-            O + 'C11_none_untouched_override', R + 'C11_relax_step', R + 'C11_none_untouched_relax', S + 'C11_update_step', S + 'C11_update_no_current', S + 'C11_update_reported',
+            O + 'C11_none_untouched_override', 'Scalibr.OverrideMulti.C11_override_multi_step', 'Scalibr.OverrideMulti.C11_none_untouched_multi', 'Scalibr.OverrideMulti.C11_override_pin_overtaken_witness', R + 'C11_relax_step', R + 'C11_none_untouched_relax', S + 'C11_update_step', S + 'C11_update_no_current', S + 'C11_update_reported',
             S + 'C11_none_untouched_update', S + 'C11_update_fixed_witnesses']
 
 
@@ -57,7 +58,9 @@ def run(ctx):
                        'Relax: requirements that are not semver constraints (dist-tags) are outside the model']
     ctx.rule = ('rx = (level, one of 25 requirement shapes, 1-12 npm versions incl. pre-releases and 0.x) through the real NpmRelaxer.Relax; sg = (level, plain/range requirement, 1-13 Maven versions, '
                 'a few guava/commons universes) through the real suggestMavenVersion; ov = (level, direct or transitive dependency on g:p, 1-12 Maven versions, 1-3 vulnerabilities with fixed / '
-                'last_affected / explicit lists) through the real override patchVulns loop with in-memory resolve client and local matcher. thorough adds every subset of 6 versions x level x '
+                'last_affected / explicit lists) through the real override patchVulns loop with in-memory resolve client and local matcher; mo = three Maven packages (two direct, one transitive whose version depends on the '
+                'direct ones; 2-6 versions each with patch/minor/major steps), 2-4 vulnerability records of which about half affect two packages, never-fixed and windowed advisories on the transitive package, per-package levels '
+                '(major/minor/patch/none), through the same real loop, the resolver tabulated per (direct, direct) pair; every written override is judged against the version the package resolves to WITHOUT it in the final manifest. thorough adds every subset of 6 versions x level x '
                 '1-2 chained vulnerabilities (override) and 25 requirements x 4 levels x 3 universes (relax). non-trivial = the real code changed something; distinct = distinct case lines')
     gen_ok = regenerate_allows(ctx)
     ok, _ = ctx.lean_build(['Scalibr.Properties.C11', 'drv_c11'])
@@ -65,7 +68,7 @@ def run(ctx):
     if ctx.tier == 'thorough':
         proofs_ok = ctx.leanchecker('Scalibr.Properties.C11') and proofs_ok
     n = {'quick': 4000, 'thorough': 40000}[ctx.tier]
-    KEYS = ['r', 'final', 'greater']
+    KEYS = ['r', 'final', 'greater', 'pins', 'res']
 
     def agree(fi, fm):
         return all(fi.get(k) == fm.get(k) for k in KEYS)
@@ -80,6 +83,8 @@ def run(ctx):
             return r[:1] in ('t', 'c')
         if op == 'sg':
             return r.startswith('update')
+        if op == 'mo':
+            return r == 'ok' and fm.get('rounds', '0') != '0'
         return r == 'ok' and fi.get('final') != case.split(' | ')[1].split(' ')[1]
 
     def oracle(case, fi, fm):
@@ -103,6 +108,32 @@ def run(ctx):
                 return 'override ended at version #%s: not the base and not strictly above it with an allowed difference to the base' % fi.get('final')
             if fm.get('laws') != '1' and int(fi.get('final', '-1')) < int(case.split(' | ')[1].split(' ')[1]):
                 return 'override ended below the base'
+        elif op == 'mo':
+            if r != 'ok':
+                return 'override loop (several packages): ' + r
+            tb = case.split(' | ')[1].split(' ')
+            pins0 = tb[2].split('.')
+            pins = fi.get('pins', '-.-.-').split('.')
+            res = fi.get('res', '-.-.-').split('.')
+            names = ['g:app', 'g:bee', 'g:lib']
+            for p in (0, 1):
+                if pins[p] != res[p]:
+                    return 'HonoursPins observed false for %s: requirement #%s, resolved #%s' % (names[p], pins[p], res[p])
+                if pins[p] != pins0[p] and not bit(fm.get('okA' if p == 0 else 'okB'), int(pins[p]) if pins[p].isdigit() else -1):
+                    return 'override of %s: #%s -> #%s is not strictly upward within its level' % (names[p], pins0[p], pins[p])
+            if pins[2] != '-':
+                # judged against the version g:lib resolves to WITHOUT this override in the final manifest
+                rows = fm.get('okL', '').split(';')
+                a = int(pins[0]) if pins[0].isdigit() else 0
+                b = int(pins[1]) if pins[1].isdigit() else 0
+                row = rows[a].split(',')[b] if a < len(rows) and b < len(rows[a].split(',')) else 'x'
+                if row != 'x':
+                    if res[2] != pins[2]:
+                        return 'HonoursPins observed false for g:lib: dependencyManagement #%s, resolved #%s' % (pins[2], res[2])
+                    base = tb[3].split(';')[a].split(',')[b]
+                    if not bit(row, int(pins[2])):
+                        return ('dependencyManagement pins g:lib to version #%s, but without that override the final manifest resolves g:lib to #%s: '
+                                'not strictly upward within its level' % (pins[2], base))
         elif op == 'sg' and level != '3':        # Suggest never calls the function for level None
             if r.startswith('update:'):
                 i = r.split(':')[1]
@@ -125,7 +156,9 @@ def run(ctx):
             r = r[:1] if r[:1] in ('t', 'c') else r
         if op == 'sg':
             r = r.split(':')[0]
-        extra = ' rounds=%s laws=%s' % (fm.get('rounds'), fm.get('laws')) if op == 'ov' else ''
+        extra = ' rounds=%s laws=%s' % (fm.get('rounds'), fm.get('laws')) if op == 'ov' else (' rounds=%s' % fm.get('rounds') if op == 'mo' else '')
+        if op == 'mo':
+            return 'mo r=%s%s' % (r, extra)
         return '%s level=%s r=%s%s' % (op, case.split(' ')[1], r, extra)
 
     lib.standard_stream(ctx, gen='c11gen', driver='drv_c11', gen_args=['-seed', str(ctx.seed), '-n', str(n), '-tier', ctx.tier],
